@@ -36,6 +36,11 @@ func IQ(typ stanza.IQType, payload xml.Name, h IQHandler) Option {
 // IQFunc returns an option that matches IQ stanzas.
 // For more information see IQ.
 func IQFunc(typ stanza.IQType, payload xml.Name, h IQHandlerFunc) Option {
+	if h == nil {
+		// A nil func wrapped in the handler interface is not a nil handler and
+		// would only fail once a matching element arrives.
+		return IQ(typ, payload, nil)
+	}
 	return IQ(typ, payload, h)
 }
 
@@ -59,6 +64,11 @@ func Message(typ stanza.MessageType, payload xml.Name, h MessageHandler) Option 
 // MessageFunc returns an option that matches message stanzas.
 // For more information see Message.
 func MessageFunc(typ stanza.MessageType, payload xml.Name, h MessageHandlerFunc) Option {
+	if h == nil {
+		// A nil func wrapped in the handler interface is not a nil handler and
+		// would only fail once a matching element arrives.
+		return Message(typ, payload, nil)
+	}
 	return Message(typ, payload, h)
 }
 
@@ -82,6 +92,11 @@ func Presence(typ stanza.PresenceType, payload xml.Name, h PresenceHandler) Opti
 // PresenceFunc returns an option that matches on presence stanzas.
 // For more information see Presence.
 func PresenceFunc(typ stanza.PresenceType, payload xml.Name, h PresenceHandlerFunc) Option {
+	if h == nil {
+		// A nil func wrapped in the handler interface is not a nil handler and
+		// would only fail once a matching element arrives.
+		return Presence(typ, payload, nil)
+	}
 	return Presence(typ, payload, h)
 }
 
@@ -136,5 +151,10 @@ func Handle(n xml.Name, h xmpp.Handler) Option {
 
 // HandleFunc returns an option that matches on the provided XML name.
 func HandleFunc(n xml.Name, h xmpp.HandlerFunc) Option {
+	if h == nil {
+		// A nil func wrapped in the handler interface is not a nil handler and
+		// would only fail once a matching element arrives.
+		return Handle(n, nil)
+	}
 	return Handle(n, h)
 }
